@@ -17,7 +17,9 @@ EXTENDS FlatOps, Json
 
 CONSTANTS MsgT,
           Msgs,        \* sequence of message byte strings (each cut to size())
-          MaxMsgLen, PipeCap, ChunkMax, SpurMax, Record
+          MaxMsgLen, PipeCap, ChunkMax, SpurMax,
+          CancelMax,   \* how many times the user may drop a suspended recv future and call recv again
+          Record
 
 Cap == 2 * MaxI(MaxMsgLen, MinSize(MsgT))
 Stream == Flatten(Msgs)
@@ -26,10 +28,10 @@ VARIABLES mi, spos, sphase, sdone,                 \* sender task: message index
           q, closedW,                              \* the pipe: bytes in flight; write half dropped
           buf, ws, we, rpc, cur, nret, consumed,   \* receiver task (as in IoRecv)
           rdone,
-          running, spur,                           \* scheduler: who is inside a poll; spurious Pendings used
+          running, spur, cancels,                  \* scheduler: who is inside a poll; spurious Pendings used; recv futures dropped
           path, poll                               \* history (hidden by VIEW): finished polls; events of the poll in progress
-vars == <<mi, spos, sphase, sdone, q, closedW, buf, ws, we, rpc, cur, nret, consumed, rdone, running, spur, path, poll>>
-View == <<mi, spos, sphase, sdone, q, closedW, buf, ws, we, rpc, cur, nret, consumed, rdone, running, spur>>
+vars == <<mi, spos, sphase, sdone, q, closedW, buf, ws, we, rpc, cur, nret, consumed, rdone, running, spur, cancels, path, poll>>
+View == <<mi, spos, sphase, sdone, q, closedW, buf, ws, we, rpc, cur, nret, consumed, rdone, running, spur, cancels>>
 
 sendV == <<mi, spos, sphase, sdone>>
 recvV == <<buf, ws, we, rpc, cur, nret, consumed, rdone>>
@@ -47,13 +49,13 @@ Init ==
   /\ mi = 1 /\ spos = 0 /\ sphase = "write" /\ sdone = FALSE
   /\ q = <<>> /\ closedW = FALSE
   /\ buf = Rep(Cap, 0) /\ ws = 0 /\ we = 0 /\ rpc = "validate" /\ cur = 0 /\ nret = 0 /\ consumed = 0 /\ rdone = FALSE
-  /\ running = "none" /\ spur = 0 /\ path = <<>> /\ poll = <<>>
+  /\ running = "none" /\ spur = 0 /\ cancels = 0 /\ path = <<>> /\ poll = <<>>
 
 PollBegin(task) ==
   /\ running = "none"
   /\ IF task = "S" THEN ~sdone ELSE ~rdone
   /\ running' = task /\ poll' = <<>>
-  /\ UNCHANGED <<sendV, q, closedW, recvV, spur, path>>
+  /\ UNCHANGED <<sendV, q, closedW, recvV, spur, path, cancels>>
 
 \* ---- sender task ---------------------------------------------------------------------------------
 SWrite ==
@@ -63,19 +65,19 @@ SWrite ==
        /\ spos' = spos + k
        /\ sphase' = IF spos + k = Len(Msgs[mi]) THEN "flush" ELSE "write"
        /\ LogEv(Ev("w", k))
-  /\ UNCHANGED <<mi, sdone, closedW, recvV, running, spur, path>>
+  /\ UNCHANGED <<mi, sdone, closedW, recvV, running, spur, path, cancels>>
 
 SPendingFull ==          \* poll_write answers Pending: the pipe is full
   /\ running = "S" /\ sphase = "write" /\ Len(q) = PipeCap
   /\ LogEv(Ev("wfull", 0)) /\ EndPoll("S", "pending")
-  /\ UNCHANGED <<sendV, q, closedW, recvV, spur>>
+  /\ UNCHANGED <<sendV, q, closedW, recvV, spur, cancels>>
 
 SSpurious ==             \* poll_write / poll_flush answers Pending although it could make progress
   /\ running = "S" /\ spur < SpurMax
   /\ (sphase = "flush" \/ Len(q) < PipeCap)
   /\ spur' = spur + 1
   /\ LogEv(Ev(IF sphase = "flush" THEN "fpend" ELSE "wpend", 0)) /\ EndPoll("S", "pending")
-  /\ UNCHANGED <<sendV, q, closedW, recvV>>
+  /\ UNCHANGED <<sendV, q, closedW, recvV, cancels>>
 
 SFlush ==                \* poll_flush Ready(Ok): the send completes; the task goes on with the next message
   /\ running = "S" /\ sphase = "flush"
@@ -83,9 +85,9 @@ SFlush ==                \* poll_flush Ready(Ok): the send completes; the task g
   /\ IF mi = Len(Msgs)
        THEN /\ mi' = mi + 1 /\ spos' = 0 /\ sphase' = "write" /\ sdone' = TRUE /\ closedW' = TRUE
             /\ EndPoll("S", "ready")
-            /\ UNCHANGED <<q, recvV, spur>>
+            /\ UNCHANGED <<q, recvV, spur, cancels>>
        ELSE /\ mi' = mi + 1 /\ spos' = 0 /\ sphase' = "write"
-            /\ UNCHANGED <<sdone, closedW, q, recvV, running, spur, path>>
+            /\ UNCHANGED <<sdone, closedW, q, recvV, running, spur, path, cancels>>
 
 \* ---- receiver task -------------------------------------------------------------------------------
 RValidate ==
@@ -94,23 +96,23 @@ RValidate ==
        CASE r.ok           -> rpc' = "guard" /\ cur' = Size(r.val, MsgT) /\ nret' = nret + 1 /\ LogEv(Ev("msg", cur'))
          [] r.cls = "size" -> rpc' = "read" /\ UNCHANGED <<cur, nret, poll>>
          [] OTHER          -> rpc' = "parse" /\ LogEv(Ev("parse", 0)) /\ UNCHANGED <<cur, nret>>
-  /\ UNCHANGED <<sendV, q, closedW, buf, ws, we, consumed, rdone, running, spur, path>>
+  /\ UNCHANGED <<sendV, q, closedW, buf, ws, we, consumed, rdone, running, spur, path, cancels>>
 
 RParseEnd == /\ running = "R" /\ rpc = "parse" /\ rdone' = TRUE /\ poll' = poll /\ EndPoll("R", "ready")
-             /\ UNCHANGED <<sendV, q, closedW, buf, ws, we, rpc, cur, nret, consumed, spur>>
+             /\ UNCHANGED <<sendV, q, closedW, buf, ws, we, rpc, cur, nret, consumed, spur, cancels>>
 
 RGuardDrop ==
   /\ running = "R" /\ rpc = "guard" /\ cur <= we - ws
   /\ consumed' = consumed + cur
   /\ IF ws + cur = we THEN ws' = 0 /\ we' = 0 ELSE ws' = ws + cur /\ we' = we
   /\ rpc' = "validate"
-  /\ UNCHANGED <<sendV, q, closedW, buf, cur, nret, rdone, running, spur, path, poll>>
+  /\ UNCHANGED <<sendV, q, closedW, buf, cur, nret, rdone, running, spur, path, poll, cancels>>
 
 RCompact ==
   /\ running = "R" /\ rpc = "read" /\ we = Cap /\ ws > 0
   /\ buf' = [i \in 1..Cap |-> IF i <= we - ws THEN buf[ws + i] ELSE buf[i]]
   /\ ws' = 0 /\ we' = we - ws
-  /\ UNCHANGED <<sendV, q, closedW, rpc, cur, nret, consumed, rdone, running, spur, path, poll>>
+  /\ UNCHANGED <<sendV, q, closedW, rpc, cur, nret, consumed, rdone, running, spur, path, poll, cancels>>
 
 RRead ==
   /\ running = "R" /\ rpc = "read" /\ we < Cap /\ Len(q) > 0
@@ -119,34 +121,41 @@ RRead ==
        /\ we' = we + k /\ q' = SubSeq(q, k + 1, Len(q))
        /\ LogEv(Ev("r", k))
   /\ rpc' = "validate"
-  /\ UNCHANGED <<sendV, closedW, ws, cur, nret, consumed, rdone, running, spur, path>>
+  /\ UNCHANGED <<sendV, closedW, ws, cur, nret, consumed, rdone, running, spur, path, cancels>>
 
 RPendingEmpty ==
   /\ running = "R" /\ rpc = "read" /\ we < Cap /\ Len(q) = 0 /\ ~closedW
   /\ LogEv(Ev("rempty", 0)) /\ EndPoll("R", "pending")
-  /\ UNCHANGED <<sendV, q, closedW, recvV, spur>>
+  /\ UNCHANGED <<sendV, q, closedW, recvV, spur, cancels>>
 
 RSpurious ==
   /\ running = "R" /\ rpc = "read" /\ we < Cap /\ spur < SpurMax /\ (Len(q) > 0 \/ closedW)
   /\ spur' = spur + 1
   /\ LogEv(Ev("rpend", 0)) /\ EndPoll("R", "pending")
-  /\ UNCHANGED <<sendV, q, closedW, recvV>>
+  /\ UNCHANGED <<sendV, q, closedW, recvV, cancels>>
 
 REof ==
   /\ running = "R" /\ rpc = "read" /\ we < Cap /\ Len(q) = 0 /\ closedW
   /\ rpc' = "closed" /\ rdone' = TRUE
   /\ LogEv(Ev("closed", 0)) /\ EndPoll("R", "ready")
-  /\ UNCHANGED <<sendV, q, closedW, buf, ws, we, cur, nret, consumed, spur>>
+  /\ UNCHANGED <<sendV, q, closedW, buf, ws, we, cur, nret, consumed, spur, cancels>>
 
 ROom ==
   /\ running = "R" /\ rpc = "read" /\ we = Cap /\ ws = 0
   /\ rpc' = "oom" /\ rdone' = TRUE
   /\ LogEv(Ev("oom", 0)) /\ EndPoll("R", "ready")
-  /\ UNCHANGED <<sendV, q, closedW, buf, ws, we, cur, nret, consumed, spur>>
+  /\ UNCHANGED <<sendV, q, closedW, buf, ws, we, cur, nret, consumed, spur, cancels>>
+
+RCancel ==              \* the user drops a recv future suspended at a pipe call and calls recv again: the new future starts
+                        \* at validate; everything the old one had read stays in the buffer (recv is cancel-safe)
+  /\ running = "none" /\ ~rdone /\ rpc = "read" /\ cancels < CancelMax
+  /\ cancels' = cancels + 1 /\ rpc' = "validate"
+  /\ path' = IF Record THEN Append(path, [task |-> "R", res |-> "cancel", evs |-> <<>>]) ELSE path
+  /\ UNCHANGED <<sendV, q, closedW, buf, ws, we, cur, nret, consumed, rdone, running, spur, poll>>
 
 SNext == SWrite \/ SPendingFull \/ SSpurious \/ SFlush
 RNext == RValidate \/ RParseEnd \/ RGuardDrop \/ RCompact \/ RRead \/ RPendingEmpty \/ RSpurious \/ REof \/ ROom
-Next == PollBegin("S") \/ PollBegin("R") \/ SNext \/ RNext
+Next == PollBegin("S") \/ PollBegin("R") \/ SNext \/ RNext \/ RCancel
 Spec == Init /\ [][Next]_vars /\ WF_vars(SNext) /\ WF_vars(RNext) /\ SF_vars(PollBegin("S")) /\ SF_vars(PollBegin("R"))
 
 NextP == Next /\ ((Len(path') # Len(path)) => PrintT(<<"CASE", ToJson([k |-> "ioasync", id |-> "", path |-> path', done |-> <<sdone', rdone'>>])>>))
